@@ -31,3 +31,4 @@ LEVEL_TEXT = ("Lean 4 theorems about the model Bluge.Persist: keepN (liveEpochs 
               "(the real directory is listed and every snapshot file parsed after EVERY directory operation)")
 LEVEL_NOTE = ("trusted: Lean kernel + standard axioms; flock/unlink semantics assumed; `handles_once` is checked at run time on every trace (closers counted), not proved")
 TECHNIQUE = "Lean 4 proof (inductive invariant) + Gen fact table + differential correspondence run (directory listing after every operation)"
+EXTRACT_DEPS = ["c02.go"]   # shared AST helpers (callsIn, selName, ...) live in the C02 generator
